@@ -86,6 +86,13 @@ template<class T> static void MakeOther(Queue<T> & o2, std::deque<T> & m2, uint3
    for (int i = 0; i < c; i++) { T x = Conv<T>::Make(range); if (head) { (void)o2.AddHead(x); m2.push_front(x); } else { (void)o2.AddTail(x); m2.push_back(x); } }
 }
 
+// walks an iterator (by value) and compares the visited indices and values with the expected index list; the iterator must end exactly there
+template<class It, class T> static bool WalkOK(It it, const std::vector<uint32> & want, const std::deque<T> & m, int32 stride)
+{
+   if (it.GetStride() != stride) return false;
+   for (size_t i = 0; i < want.size(); i++) { if (!it.HasData() || it.GetIndex() != want[i] || !(*it == m[want[i]])) return false; it++; }
+   return !it.HasData();
+}
 template<class T> static void RunCase(long k, uint64_t cs)
 {
    g = vh::Rng(cs); trace.clear(); caseBad = false; typeName = Conv<T>::Name(); vh::stat(std::string("type_") + typeName);
@@ -98,7 +105,7 @@ template<class T> static void RunCase(long k, uint64_t cs)
    uint32 maxSize = 0; bool wrapped = false, heap = false, shrunk = false;
    for (uint32 it = 0; it < nops && !caseBad; it++) {
       if (big && m.size() < 3000 && R(3) == 0) { uint32 n = 200 + R(900); OP("bulkAddTail %u", n); for (uint32 i = 0; i < n; i++) { T x = Conv<T>::Make(range); (void)q->AddTail(x); m.push_back(x); } }
-      int o = R(70); T v = Conv<T>::Make(range); uint32 sz = (uint32)m.size(); uint32 k1 = sz ? R(sz + 1) : 0, k2 = sz ? R(sz + 1) : 0; status_t r;
+      int o = R(71); T v = Conv<T>::Make(range); uint32 sz = (uint32)m.size(); uint32 k1 = sz ? R(sz + 1) : 0, k2 = sz ? R(sz + 1) : 0; status_t r;
       switch (o) {
       case 0: case 1: case 2: OP("AddTail"); r = q->AddTail(v); m.push_back(v); if (r.IsError()) Fail("AddTail failed"); break;
       case 3: case 4: case 5: OP("AddHead"); r = q->AddHead(v); m.push_front(v); if (r.IsError()) Fail("AddHead failed"); break;
@@ -174,6 +181,20 @@ template<class T> static void RunCase(long k, uint64_t cs)
                  p = q->AddTailAndGet(); if (!p || (!pod && !(*p == Conv<T>::Def()))) Fail("AddTailAndGet() must expose a default item"); if (p) *p = x1; m.push_back(x1);
                  p = q->AddHeadAndGet(); if (!p || (!pod && !(*p == Conv<T>::Def()))) Fail("AddHeadAndGet() must expose a default item"); if (p) *p = x2; m.push_front(x2); } break;
       case 68: { OP("compare"); Queue<T> c(*q); std::deque<T> cm(m); if (sz && R(2)) { uint32 at = R(sz); T x = Conv<T>::Make(range); (void)c.ReplaceItemAt(at, x); cm[at] = x; } else if (R(2)) { T x = Conv<T>::Make(range); (void)c.AddTail(x); cm.push_back(x); } if ((c == *q) != (cm == m)) Fail("=="); if ((c != *q) != (cm != m)) Fail("!="); if ((c < *q) != (cm < m)) Fail("<"); if ((c > *q) != (cm > m)) Fail(">"); if ((c <= *q) != (cm <= m)) Fail("<="); if ((c >= *q) != (cm >= m)) Fail(">="); } break;
+      case 70: { static const int32 S[] = {1, -1, 2, -2, 3, -3, 5}; const int32 st = S[R(7)]; const uint32 start = R(sz + 3); OP("iterator-surface start=%u stride=%d of %u", start, st, sz);
+                 std::vector<uint32> want; { uint32 idx = start; while (idx < sz && want.size() <= sz) { want.push_back(idx); idx += (uint32)st; } }
+                 // every route to an iterator equivalent to (queue, start, stride) must visit exactly the model's items at start, start+stride, ...
+                 QueueIterator<T> a(*q, start, st); QueueIterator<T> b(a); QueueIterator<T> c; c = a; QueueIterator<T> d(*q, R(sz + 1), -st); { QueueIterator<T> e(a); d.SwapContents(e); }
+                 QueueIterator<T> f(*q, R(sz + 1), R(2) ? 1 : -1); f = a;
+                 ConstQueueIterator<T> ca(*q, start, st); ConstQueueIterator<T> cb(a); ConstQueueIterator<T> cc; cc = a; ConstQueueIterator<T> cd(*q, R(sz + 1), R(2) ? 1 : -1); cd = a;
+                 ConstQueueIterator<T> ce(*q, R(sz + 1), -st); ce = ca; ConstQueueIterator<T> cf(ca); ConstQueueIterator<T> cg(*q, R(sz + 1), 1); { ConstQueueIterator<T> t(ca); cg.SwapContents(t); }
+                 if (!WalkOK(a, want, m, st)) Fail("QueueIterator(queue,start,stride)"); if (!WalkOK(b, want, m, st)) Fail("QueueIterator copy-constructed"); if (!WalkOK(c, want, m, st)) Fail("default QueueIterator assigned");
+                 if (!WalkOK(d, want, m, st)) Fail("QueueIterator SwapContents"); if (!WalkOK(f, want, m, st)) Fail("used QueueIterator assigned");
+                 if (!WalkOK(ca, want, m, st)) Fail("ConstQueueIterator(queue,start,stride)"); if (!WalkOK(cb, want, m, st)) Fail("ConstQueueIterator constructed from QueueIterator"); if (!WalkOK(cc, want, m, st)) Fail("default ConstQueueIterator assigned from QueueIterator");
+                 if (!WalkOK(cd, want, m, st)) Fail("used ConstQueueIterator assigned from QueueIterator"); if (!WalkOK(ce, want, m, st)) Fail("used ConstQueueIterator assigned from ConstQueueIterator"); if (!WalkOK(cf, want, m, st)) Fail("ConstQueueIterator copy-constructed"); if (!WalkOK(cg, want, m, st)) Fail("ConstQueueIterator SwapContents");
+                 { QueueIterator<T> w(a); uint32 steps = R(4); for (uint32 i = 0; i < steps; i++) w++; for (uint32 i = 0; i < steps; i++) w--; if (w.GetIndex() != start) Fail("++ then -- does not return to the start index"); if (&w.GetQueue() != q) Fail("GetQueue"); }
+                 { QueueIterator<T> z; ConstQueueIterator<T> cz; if (z.HasData() || cz.HasData()) Fail("default-constructed iterator has data"); }
+                 vh::stat("iterator_surface_checks"); if (st != 1) vh::stat("iterator_surface_nonunit_stride"); if (!want.empty() && st != 1) vh::stat("iterator_surface_nonunit_stride_nonempty_walk"); } break;
       default: { OP("AddTailDefault"); if (R(2)) { (void)q->AddTail(); m.push_back(Conv<T>::Def()); } else { (void)q->AddHead(); m.push_front(Conv<T>::Def()); } } break;
       }
       if (!caseBad) { Audit(*q, m); AuditLive(*q, m, live0 + 1 /* the loop's own v */); }
@@ -223,7 +244,14 @@ static void Regress()
       if (!ok) { caseBad = false; Fail("Normalize() of a wrapped Queue<bool> changed the contents"); }
       vh::stat("regress_F55_checked");
    }
-   vh::distinct(1); vh::distinct(2); vh::distinct(3); vh::distinct(4);
+   vh::begin_case(5);
+   { // seeded C16-6: an existing ConstQueueIterator assigned from a backward QueueIterator must keep the source's stride
+      opname = "regress-iterator-assign-stride"; Queue<int32> q; for (int i = 0; i < 5; i++) (void)q.AddTail(i);
+      ConstQueueIterator<int32> ci(q, 0, 1); ci = q.GetBackwardIterator(); int n = 0, last = -1; bool ok = true; for (; ci.HasData(); ci++) { if (n == 0 ? (*ci != 4) : (*ci != last - 1)) ok = false; last = *ci; n++; }
+      if (!ok || n != 5) { caseBad = false; Fail("a ConstQueueIterator assigned from GetBackwardIterator() does not walk the queue backwards"); }
+      vh::stat("regress_iterator_assign_checked");
+   }
+   vh::distinct(1); vh::distinct(2); vh::distinct(3); vh::distinct(4); vh::distinct(5);
 }
 
 int main(int argc, char ** argv)
